@@ -111,7 +111,8 @@ func (n *memoryStoreNode) findNewest() *memoryStoreNode {
 	known := n
 	for _, child := range n.children {
 		cl := child.findNewest()
-		if cl.version > known.version {
+		// a node without a packet never beats one that has a packet (version 0 is a valid version)
+		if cl.wire != nil && (known.wire == nil || cl.version > known.version) {
 			known = cl
 		}
 	}
